@@ -62,11 +62,17 @@ def make_case(ctx, i):
             rest["defs"] = [G.imp([".", "g.graphql"], [x["name"] for x in moved2])] + [x for x in rest["defs"] if x not in moved2]
             op_files.append({"path": ["ops", "g.graphql"], "doc": {"defs": [G.imp([".", "lib", "f.graphql"], None)] + moved2}})
             imported += [(x["name"], ["ops", "g.graphql"]) for x in moved2]
+    if i % 2 == 0:
+        # a file of its own with an ANONYMOUS query, with the `query` keyword or in the shorthand form `{ ... }` (no keyword to map to)
+        anon = G.op(None, [G.field("__typename")], "query")
+        if i % 4 == 0:
+            anon["shorthand"] = True
+        op_files.append({"path": ["ops", "anon.graphql"], "doc": {"defs": [anon]}})
     config = {"schema": "./schema/*.graphql", "documents": ["./ops/*.graphql", "./ops/lib/*.graphql"], "extensions": {"nitrogql": {"generate": gen}}}
     if i % 3 == 1:
         # a plugin contributes a virtual schema file that sits between the schema files and the operation files in load order
         config["extensions"]["nitrogql"]["plugins"] = ["nitrogql:model-plugin"]
-    cap = lambda s: s[0].upper() + s[1:]
+    cap = lambda s: s[:1].upper() + s[1:]
     expect_ops = []
     for f in op_files:
         rel = "/".join(f["path"])
